@@ -343,13 +343,30 @@ def CoreMeaning (st : State) (σ : Sched) : CBody → Prop
        | .max => cs.countP σ.applied ≤ n)
   | .unavailable busy ivs => ∀ b ∈ busy, ∀ iv ∈ ivs, iv.2 ≤ b.sV (envOf st σ) ∨ b.eV (envOf st σ) ≤ iv.1
   | .sameWorkers s1 s2 => ∀ w ∈ s1.workers, w ∈ s2.workers → σ.sel s1.id w = σ.sel s2.id w
+  -- the interruption classes (no auxiliary variables): the requirement on every busy interval the constraint was
+  -- declared on, read on the busy intervals the schedule induces; for the periodic classes the window of the period
+  -- the interval starts in (what the documented meaning — all repetitions — implies a fortiori)
+  | .interrupted ws ivs => (∀ iv ∈ ivs, iv.1 < iv.2) ∧
+      ∀ w ∈ ws, ∀ bt ∈ w, bt.1.sV (envOf st σ) ≤ bt.1.eV (envOf st σ) ∧
+        InterruptedExact (envOf st σ) (bt.1.sV (envOf st σ)) (bt.1.eV (envOf st σ)) bt.2 ivs
+  | .periodicallyUnavailable busy ivs period start offset end_ => (∀ iv ∈ ivs, iv.1 < iv.2) ∧
+      ∀ b ∈ busy, b.sV (envOf st σ) ≤ b.eV (envOf st σ) ∧ ∀ iv ∈ ivs,
+        PeriodicMasked (envOf st σ) b start end_ ∨
+        (iv.2 + offset + period * ((b.sV (envOf st σ) - offset) / period) ≤ b.sV (envOf st σ) ∨
+         b.eV (envOf st σ) ≤ iv.1 + offset + period * ((b.sV (envOf st σ) - offset) / period))
+  | .periodicallyInterrupted busy ivs period start offset end_ =>
+      0 < period ∧ (∀ iv ∈ ivs, 0 ≤ iv.1 ∧ iv.1 < iv.2 ∧ iv.2 ≤ period) ∧
+      ∀ bt ∈ busy, bt.1.sV (envOf st σ) ≤ bt.1.eV (envOf st σ) ∧
+        (PeriodicMasked (envOf st σ) bt.1 start end_ ∨
+         PeriodicInterruptedExact (envOf st σ) (bt.1.sV (envOf st σ)) (bt.1.eV (envOf st σ)) bt.2 ivs period offset)
   | b => if b.isConn then ConnMeaning (envOf st σ) b else False
 
 /-- bodies the core theorem covers -/
 def CBody.inCore : CBody → Bool
   | .startAt .. | .startAfter .. | .endAt .. | .endBefore .. | .precedence .. | .startSynced .. | .endSynced ..
   | .dontOverlap .. | .forceSchedule .. | .conditionSchedule .. | .dependency .. | .forceScheduleN ..
-  | .fromExpr .. | .forceApplyN .. | .unavailable .. | .sameWorkers .. => true
+  | .fromExpr .. | .forceApplyN .. | .unavailable .. | .sameWorkers ..
+  | .interrupted .. | .periodicallyUnavailable .. | .periodicallyInterrupted .. => true
   | b => b.isConn
 
 theorem core_raw_complete (st : State) (σ : Sched) (c : Nat) (b : CBody)
@@ -478,6 +495,36 @@ theorem core_raw_complete (st : State) (σ : Sched) (c : Nat) (b : CBody)
     have hb1 : (envOf st σ).b (.sel s1.id w) = σ.sel s1.id w := rfl
     have hb2 : (envOf st σ).b (.sel s2.id w) = σ.sel s2.id w := rfl
     simp [Fml.eval, hb1, hb2, this]
+  case interrupted ws ivs =>
+    simp only [CoreMeaning] at hm
+    obtain ⟨hwf, hall⟩ := hm
+    intro a ha
+    simp only [CBody.raw, List.mem_map] at ha
+    obtain ⟨w, hw, rfl⟩ := ha
+    simp only [Fml.eval]; rw [evalAll_iff]
+    intro f hf
+    obtain ⟨bt, hbt, hfb⟩ := List.mem_flatMap.1 hf
+    exact interruptedOne_complete bt.1 bt.2 ivs _ hwf (hall w hw bt hbt).1 (hall w hw bt hbt).2 f hfb
+  case periodicallyUnavailable busy ivs period start offset end_ =>
+    simp only [CoreMeaning] at hm
+    obtain ⟨hwf, hall⟩ := hm
+    intro a ha
+    simp only [CBody.raw, List.mem_flatMap, List.mem_map] at ha
+    obtain ⟨iv, hiv, b, hb, rfl⟩ := ha
+    exact periodicOne_complete b iv period start offset end_ _ (hwf iv hiv) (hall b hb).1 ((hall b hb).2 iv hiv)
+  case periodicallyInterrupted busy ivs period start offset end_ =>
+    simp only [CoreMeaning] at hm
+    obtain ⟨hp, hwf, hall⟩ := hm
+    intro a ha
+    simp only [CBody.raw, List.mem_map] at ha
+    obtain ⟨bt, hbt, rfl⟩ := ha
+    unfold periodicInterruptedFml
+    apply masked_or_core
+    rcases (hall bt hbt).2 with hmk | hex
+    · exact Or.inl hmk
+    · right
+      simp only [Fml.eval]; rw [evalAll_eq_Sat]
+      exact periodicInterruptedOne_complete bt.1 bt.2 ivs period offset _ hp hwf (hall bt hbt).1 hex
   case not_ o =>
     simp only [CoreMeaning, CBody.isConn, if_true] at hm
     exact (C10_connective_raw c _ rfl _).2 hm
@@ -654,5 +701,35 @@ def C05_exSched : Sched :=
 
 example : satB (envOf C05_exState C05_exSched) (initFmls {} C05_exState) = true := by decide +kernel
 example : C05_exState.constrs.length = 5 ∧ C05_exState.reqLog.length = 2 := by decide +kernel
+
+/-- the interruption classes: a fixed-duration task placed between the windows, a variable-duration task that
+    spans one repetition `(12, 14)` of the periodic interruption and is lengthened by its length -/
+def C05_exState2 : State :=
+  run [.problem "p" (some 30),
+       .task "F" (.fixed 3) false 0 none none true 1,
+       .task "V" (.var 2 (some 6) none) false 0 none none true 1,
+       .worker "W" 1 (.const 0),
+       .require "F" (.worker "W") false 0 0,
+       .require "V" (.worker "W") false 0 0,
+       .constr none false (.interrupted "W" [(4, 6)]),
+       .constr none false (.periodicallyInterrupted "W" [(2, 4)] 10 0 0 none),
+       .constr none false (.periodicallyUnavailable "W" [(7, 8)] 10 0 0 (some 25))]
+
+def C05_exSched2 : Sched :=
+  { sched := fun _ => false
+    start := fun n => if n == "F" then 8 else 12
+    end_ := fun n => if n == "F" then 11 else 16
+    dur := fun n => if n == "F" then 3 else 4
+    sel := fun _ _ => false
+    applied := fun _ => false
+    dynS := fun _ _ => 0
+    dynE := fun _ _ => 0
+    horizon := 20 }
+
+example : satB (envOf C05_exState2 C05_exSched2) (initFmls {} C05_exState2) = true := by decide +kernel
+example : C05_exState2.constrs.length = 3 ∧ (C05_exState2.constrs.all (fun c => c.body.inCore)) = true := by decide +kernel
+-- … and one period later the variable task would have to be longer: [12, 15] is rejected
+example : satB (envOf C05_exState2 { C05_exSched2 with end_ := fun n => if n == "F" then 11 else 15, dur := fun n => if n == "F" then 3 else 3 })
+    (initFmls {} C05_exState2) = false := by decide +kernel
 
 end PS
